@@ -328,6 +328,38 @@ fn chunk_strategy(p: &GenParams) -> BoxedStrategy<Vec<Op>> {
             o
         })
         .boxed();
+    // a fresh write-ahead log is filled to within a few bytes of the end of its first 32 KiB block
+    // (record = 7-byte header + 17 bytes of batch framing + key + value), then re-opened for
+    // appending (reuse_log_files) and written to again: block-trailer handling of a reused log
+    let waltail = (
+        (sel(), 32_715u32..32_750, select(vec![100_000usize, 4 * 1024 * 1024])),
+        (select(vec![400u64, 2048, 1024 * 1024]), select(vec![128usize, 4096])),
+        prop::collection::vec((sel(), v()), 1..4),
+        any::<bool>(),
+    )
+        .prop_map(move |((k, len, memtable), (file, block), after, reuse_last)| {
+            let mut o = vec![];
+            if reopens {
+                o.push(Op::Reopen(Cfg { memtable, file, block, reuse: false }));
+            }
+            o.push(Op::Put(k, Val { len, compressible: false }));
+            if reopens {
+                o.push(Op::Reopen(Cfg { memtable, file, block, reuse: true }));
+            }
+            let keys: Vec<Sel> = after.iter().map(|(s, _)| *s).collect();
+            for (s, val) in after {
+                o.push(Op::Put(s, val));
+            }
+            if reopens {
+                o.push(Op::Reopen(Cfg { memtable, file, block, reuse: reuse_last }));
+            }
+            for s in keys {
+                o.push(Op::Get(s));
+            }
+            o.push(Op::Get(k));
+            o
+        })
+        .boxed();
     prop_oneof![
         10 => random,
         2 => ladder,
@@ -336,6 +368,7 @@ fn chunk_strategy(p: &GenParams) -> BoxedStrategy<Vec<Op>> {
         2 => straddle,
         2 => boundary,
         1 => l0pile,
+        1 => waltail,
     ]
     .boxed()
 }
